@@ -21,6 +21,7 @@ type wireItem struct {
 	Items []wireItem `json:"i,omitempty"`
 	pos   token.Pos
 	note  string
+	buf   string // Put*: the scratch buffer the primitive was encoded into
 }
 
 func (w wireItem) String() string {
@@ -173,6 +174,9 @@ func (x *wireExtractor) sigOf(obj *types.Func) []wireItem {
 	x.rawReads = x.undecodedReads(decl.Body)
 	defer func() { x.rawReads = savedRaw }()
 	items := x.block(decl.Body.List)
+	if x.mode == "w" {
+		items = x.dropUnwritten(items, decl.Body)
+	}
 	x.carrier = saved
 	x.depth--
 	delete(x.active, obj)
@@ -205,6 +209,9 @@ func (x *wireExtractor) sigWithVariadic(obj *types.Func, args []ast.Expr) []wire
 	x.rawReads = x.undecodedReads(decl.Body)
 	defer func() { x.rawReads = savedRaw }()
 	items := x.block(decl.Body.List)
+	if x.mode == "w" {
+		items = x.dropUnwritten(items, decl.Body)
+	}
 	x.carrier = saved
 	x.depth--
 	delete(x.active, obj)
@@ -642,13 +649,17 @@ func (x *wireExtractor) call(call *ast.CallExpr) []wireItem {
 			return mk(kind, x.carryOf(call.Args[2]))
 		case full == "encoding/binary.PutUvarint" && len(call.Args) == 2:
 			x.markCarrier(call.Args[0])
-			return mk("UV", x.carryOf(call.Args[1]))
+			it := mk("UV", x.carryOf(call.Args[1]))
+			it[0].buf = carrierName(call.Args[0])
+			return it
 		case strings.HasPrefix(full, "encoding/binary.") && strings.HasPrefix(fn.Name(), "PutUint") && len(call.Args) == 2:
 			if se, ok := ast.Unparen(call.Fun).(*ast.SelectorExpr); ok && !x.isBigEndian(se.X) {
 				x.problems = append(x.problems, "PutUint with a byte order other than binary.BigEndian at "+x.c.pos(at))
 			}
 			x.markCarrier(call.Args[0])
-			return mk("U"+strings.TrimPrefix(fn.Name(), "PutUint"), x.carryOf(call.Args[1]))
+			it := mk("U"+strings.TrimPrefix(fn.Name(), "PutUint"), x.carryOf(call.Args[1]))
+			it[0].buf = carrierName(call.Args[0])
+			return it
 		case fn.Name() == "Write" && len(call.Args) == 1 && fn.Type().(*types.Signature).Recv() != nil && isByteSlice(x.info.TypeOf(call.Args[0])):
 			arg := ast.Unparen(call.Args[0])
 			if x.isCarrier(arg) {
@@ -726,6 +737,63 @@ var wireBoundary = map[string]bool{
 	"(*PostingsIterator).loadChunk": true, "(*docValueReader).iterateAllDocValues": true, "(*docValueReader).visitDocValues": true,
 	"(*Segment).visitDocument": true, "(*Segment).visitDocumentFieldTerms": true, "load": true, "initSegmentBase": true,
 	"(*Segment).getDocStoredMetaAndUnCompressed": true,
+}
+
+func carrierName(buf ast.Expr) string {
+	buf = ast.Unparen(buf)
+	if se, ok := buf.(*ast.SliceExpr); ok {
+		buf = se.X
+	}
+	return exprStr(buf)
+}
+
+// dropUnwritten removes Put* primitives whose scratch buffer is never handed
+// to a call in body (other than append/copy/len/cap and the Put* calls
+// themselves): such a primitive builds an in-memory record (appended to a
+// slice that is written elsewhere as raw bytes), it is not an emission of
+// this function.
+func (x *wireExtractor) dropUnwritten(items []wireItem, body *ast.BlockStmt) []wireItem {
+	handed := map[string]bool{}
+	ast.Inspect(body, func(n ast.Node) bool {
+		call, ok := n.(*ast.CallExpr)
+		if !ok {
+			return true
+		}
+		if id, ok := ast.Unparen(call.Fun).(*ast.Ident); ok {
+			switch id.Name {
+			case "append", "copy", "len", "cap":
+				if _, isBuiltin := x.info.Uses[id].(*types.Builtin); isBuiltin {
+					return true
+				}
+			}
+		}
+		if fn, full := x.calleeOf(call); fn != nil && strings.HasPrefix(full, "encoding/binary.") && strings.HasPrefix(fn.Name(), "Put") {
+			return true
+		}
+		for _, a := range call.Args {
+			handed[carrierName(a)] = true
+		}
+		return true
+	})
+	var filter func(in []wireItem) []wireItem
+	filter = func(in []wireItem) []wireItem {
+		var out []wireItem
+		for _, it := range in {
+			if it.buf != "" && !handed[it.buf] {
+				continue
+			}
+			it.buf = "" // decided for this function; callers that inline the result must not decide again
+			if len(it.Items) > 0 {
+				it.Items = filter(it.Items)
+				if len(it.Items) == 0 {
+					continue
+				}
+			}
+			out = append(out, it)
+		}
+		return out
+	}
+	return filter(items)
 }
 
 func (x *wireExtractor) markCarrier(buf ast.Expr) {
